@@ -63,23 +63,22 @@ def run(ck):
 
     # ---------------- R2 ----------------
     f = lib.single(prog, H + "Handler::onInput")
-    feeds = [b for b in f.blocks.values() if b.term and b.term.get("k") == "if" and "c:" + H + "Private::ParserBase::feed" in (b.term.get("refs") or [])]
+    feeds = lib.result_edges(f, H + "Private::ParserBase::feed", False)
     ck.require(feeds, "feed test not found in onInput")
     onreq = [e for e in f.calls(lambda e: (e.get("callee") or "") == H + "Handler::onRequest")]
     ck.require(onreq, "onRequest call not found")
-    for b in feeds:
-        arm = b.succs[0] if b.term.get("neg") else b.succs[1]
+    for bid, k in feeds:
+        arm = f.blocks[bid].succs[k]
         evs = cfg.events_from_block(f, arm)
         th = [e for e in evs if e["k"] == "throw" and "HttpError" in (e.get("type") or "") and lib.refs_enumerator(e, H + "Code::Request_Entity_Too_Large")]
         reach = [e for e in evs if any(e is o for o in onreq)]
         exits = cfg.exits_without(f, lambda e: e["k"] == "throw", start_block=arm)
-        ck.ob("C14-R2", "onInput/refused-feed->413", bool(th) and not reach and not exits, "%s:%s" % (f.file, b.term.get("l")), f,
+        ck.ob("C14-R2", "onInput/refused-feed->413", bool(th) and not reach and not exits, "%s:%s" % (f.file, f.blocks[bid].term.get("l")), f,
               "throws HttpError(Request_Entity_Too_Large) on every path; onRequest unreachable" if (th and not reach and not exits) else
               "refused feed: throw413=%s reaches-onRequest=%s non-throwing-exit=%s" % (bool(th), bool(reach), bool(exits)))
-    done = [b for b in f.blocks.values() if b.term and b.term.get("k") == "if" and "e:" + H + "Private::State::Done" in (b.term.get("refs") or []) and b.term.get("cmp") == "=="]
-    ok = bool(done) and all(any(cfg.edge_dominates(f, b.id, 0, e) for b in done) for e in onreq)
-    sd = [d for d in f.events("decl") if strip_tmpl(d.get("icall") or "") == H + "Private::ParserBase::parse"]
-    ok = ok and bool(sd) and all((b.term.get("lhs") or {}).get("v") == sd[0]["var"] for b in done)
+    # onRequest only on an edge that knows parse() returned Done (compared directly or through a local, `==` taken or `!=` not taken)
+    done = lib.value_edges(f, H + "Private::ParserBase::parse", "e:" + H + "Private::State::Done", ("==",))
+    ok = bool(done) and all(any(cfg.edge_dominates(f, bid, k, e) for bid, k in done) for e in onreq)
     ck.ob("C14-R2", "onInput/onRequest-only-when-Done", ok, onreq[0].loc, f, "onRequest is reached only through `state == State::Done` where state = parser->parse()")
 
     # ---------------- R3 ----------------
